@@ -253,6 +253,10 @@ func (u *Unit) paramFacts(env *Env, t Term, ty types.Type) {
 	case SSlice:
 		env.assume(u.validSliceT(t))
 		env.assume(le(u.birth(sBase(t)), IntLit(0)))
+	case SVal:
+		// a pointer held by an interface value that existed before the call points to something that existed before the call
+		_, un := u.boxFn(SRef)
+		env.assume(le(u.birth(App(un, SRef, t)), IntLit(0)))
 	case SRef:
 		env.assume(le(u.birth(t), IntLit(0)))
 		if mt, ok := types.Unalias(ty).Underlying().(*types.Map); ok {
